@@ -301,7 +301,7 @@ type c20Nest struct {
 func (n c20Nest) coq() string {
 	var regs, seen []string
 	for _, rg := range n.Regs {
-		regs = append(regs, cTuple(cStr(rg.Filter), cNat(rg.Hid)))
+		regs = append(regs, fmt.Sprintf("RReg %s %d", c20Num([]byte(rg.Filter)), rg.Hid))
 	}
 	for _, s := range n.Seen {
 		seen = append(seen, s.coq())
@@ -448,6 +448,14 @@ func runC20(cfg *runCfg) error {
 	procs := runtime.GOMAXPROCS(0)
 	defer runtime.GOMAXPROCS(procs)
 
+	c20Tab, c20TabOrder = map[string]int{}, nil
+	flushTab := func() {
+		for i, t := range c20TabOrder {
+			cf.def(fmt.Sprintf("k%d", c20Tab[t]), "content", t)
+			_ = i
+		}
+		c20TabOrder = nil
+	}
 	var cases []string
 	stat := map[string]int{}
 	distinct := map[string]bool{}
@@ -494,7 +502,7 @@ func runC20(cfg *runCfg) error {
 	nRand, maxSteps := 350, 26
 	switch cfg.tier {
 	case "thorough":
-		nRand, maxSteps = 6000, 40
+		nRand, maxSteps = 7000, 40
 	case "search":
 		nRand, maxSteps = 1500, 34
 	}
@@ -512,6 +520,7 @@ func runC20(cfg *runCfg) error {
 		finishCase(x, "random")
 	}
 	runtime.GOMAXPROCS(procs)
+	flushTab()
 	cf.def("sched_cases", "list c20_case", cList(cases))
 	cf.result("V_sched", "c20_entry_violations sched_cases")
 	cf.result("V_schediso", "c20_isolation_violations sched_cases")
@@ -545,6 +554,7 @@ func runC20(cfg *runCfg) error {
 		}
 	}
 	runtime.GOMAXPROCS(procs)
+	flushTab()
 	cf.def("nest_cases", "list c20_nest_case", cList(ncases))
 	cf.result("V_nest", "c20_nest_violations nest_cases")
 	cf.result("M_nest", "c20_nest_mismatches nest_cases")
